@@ -33,6 +33,24 @@ Theorem C07_detector_cond_bounds : forall (S : Type) (fwd : S -> S) (step_of : S
 Proof. exact detector_cond_bounds. Qed.
 Print Assumptions C07_detector_cond_bounds.
 
+(* a bound the user sets to 0 is a bound, not "unset": max_steps = 0 stops before the first step whatever the default would be,
+   min_steps = 0 lets the verdict at step 0 stop the run *)
+Theorem C07_explicit_zero_bounds : forall (S : Type) (fwd : S -> S) (step_of : S -> Z),
+  (forall s, step_of (fwd s) = step_of s + 1) ->
+  forall T mn mx d verdict s0, 0 <= T -> step_of s0 = 0 ->
+  run_until S fwd T (cond_energy S step_of mn (setup_bound (Some 0) d) verdict) s0 = s0
+  /\ run_until S fwd T (cond_detector S step_of mn (setup_bound (Some 0) d) verdict) s0 = s0
+  /\ (verdict s0 = true ->
+      run_until S fwd T (cond_energy S step_of (setup_bound (Some 0) d) mx verdict) s0 = s0
+      /\ run_until S fwd T (cond_detector S step_of (setup_bound (Some 0) d) mx verdict) s0 = s0).
+Proof.
+  intros S fwd step_of Hs T mn mx d verdict s0 HT H0.
+  destruct (explicit_zero_max_stops_at_once S fwd step_of Hs T mn d verdict s0 HT H0) as [A B].
+  split; [exact A|]. split; [exact B|]. intros Hv.
+  exact (explicit_zero_min_checks_from_start S fwd step_of Hs T d mx verdict s0 HT H0 Hv).
+Qed.
+Print Assumptions C07_explicit_zero_bounds.
+
 (* regression witness: the snapshot's detector condition never read max_steps *)
 Theorem C07_detector_src_old_refuted :
   exists T mn mx, mx < T /\ run_until Z Z.succ T (cond_detector_src_old Z (fun s => s) T mn mx (fun _ => false)) 0 = T.
